@@ -98,9 +98,13 @@ def sched_of(rng):
     return "random %d" % s if rng.random() < 0.55 else "pct %d %d" % (s, rng.choice([1, 2, 3]))
 
 
-def chan_run(wl, rm, req, tries, reads, ns, sched, spur=0):
+def chan_run(wl, rm, req, tries, reads, ns, sched, spur=0, fx=0):
+    """spur: spurious condition-variable wake-ups (permille per scheduling decision); fx: a parked
+    futex wait (reader on write_cursor, writer on the futex lock) returns EINTR although nobody woke it"""
     conf = ["conf chan %s %s %d %d %d %s" % (wl, rm, req, tries, reads, " ".join(map(str, ns)))]
-    if spur:
+    if fx:
+        conf.append("spurious 0 %d %d" % (spur, fx))
+    elif spur:
         conf.append("spurious 0 %d" % spur)
     return {"conf": conf, "sched": sched, "kind": "chan", "wl": wl, "rm": rm, "cap": pow2(req), "W": len(ns),
             "ns": list(ns), "tries": tries, "reads": reads, "expect_ok": True}
@@ -127,7 +131,8 @@ def gen_chan(ctx, per):
                             tries = rng.choice([1, 2, 3])    # writers give up: only cap-2 reads are safe
                             reads = min(tot, max(cap - 2, 0))
                         spur = rng.choice([0, 100, 300]) if rm == "mutex" else 0
-                        runs.append(chan_run(wl, rm, req, tries, reads, ns, sched_of(rng), spur))
+                        fx = rng.choice([0, 0, 200, 500]) if (rm == "sync" or wl == "sync") else 0
+                        runs.append(chan_run(wl, rm, req, tries, reads, ns, sched_of(rng), spur, fx))
     return runs
 
 
@@ -219,14 +224,15 @@ def load_corpus():
 
 def run_from_conf(conf, sched):
     t = conf[0].split()
-    spur = 0
+    spur = fx = 0
     fine = any(l.startswith("fine 1") for l in conf)
     for l in conf[1:]:
         if l.startswith("spurious"):
             spur = int(l.split()[2])
+            fx = int(l.split()[3]) if len(l.split()) > 3 else 0
     try:
         if t[1] == "chan":
-            return chan_run(t[2], t[3], int(t[4]), int(t[5]), int(t[6]), [int(x) for x in t[7:]], sched, spur)
+            return chan_run(t[2], t[3], int(t[4]), int(t[5]), int(t[6]), [int(x) for x in t[7:]], sched, spur, fx)
         if t[1] == "abq":
             P, C = int(t[3]), int(t[4])
             return abq_run(int(t[2]), [int(x) for x in t[5:5 + P]], [int(x) for x in t[5 + P:5 + P + C]], sched, spur, fine)
